@@ -212,8 +212,28 @@ VersWfC17(ev) ==
   ELSE IF distinct /\ Alternates(cs) /\ ev.ok # VDen(cs, ppos) THEN rec("routing", VDen(cs, ppos))
   ELSE {}
 
+(* C18: String() is the input up to surrounding whitespace; the text parses again   *)
+(* to a value that compares equal (versions) / contains the same versions (ranges); *)
+(* ASCII whitespace padding changes neither acceptance nor any comparison or        *)
+(* containment result.                                                              *)
+RtC18(ev) ==
+  LET rec(why, pad) == [prop |-> "C18", eco |-> ev.eco, kind |-> ev.kind, why |-> why, text |-> ev.show, pad |-> pad, known |-> ""]
+      base == IF ~ev.acc THEN {}
+              ELSE (IF Trim(ev.str) # Trim(ev.text) THEN {rec("String() is not the input text", <<>>)} ELSE {})
+                   \cup (IF ~ev.reparse THEN {rec("String() does not parse again", <<>>)}
+                         ELSE (IF ev.kind = "v" /\ (ev.selfcmp # 0 \/ ev.revcmp # 0) THEN {rec("re-parsed version does not compare equal", <<>>)} ELSE {})
+                              \cup (IF ev.revec # ev.vec THEN {rec("re-parsed value observes differently", <<>>)} ELSE {}))
+      padbad(pd) == IF pd.acc # ev.acc THEN {rec("padding changes acceptance", <<pd.l, pd.r>>)}
+                    ELSE IF ~ev.acc THEN {}
+                    ELSE (IF pd.vec # ev.vec THEN {rec("padding changes a comparison/containment result", <<pd.l, pd.r>>)} ELSE {})
+                         \cup (IF ev.kind = "v" /\ pd.cmp0 # 0 THEN {rec("padded version does not compare equal to the unpadded one", <<pd.l, pd.r>>)} ELSE {})
+                         \cup (IF ev.kind = "r" /\ pd.pvec # ev.vec THEN {rec("padding a version changes its containment", <<pd.l, pd.r>>)} ELSE {})
+  IN base \cup UNION {padbad(ev.pads[i]) : i \in 1..Len(ev.pads)}
+     \cup {rec("panic: " \o ev.panics[i], <<>>) : i \in 1..Len(ev.panics)}
+
 Judge(ev) ==
   CASE ev.k = "matrix" /\ Prop = "C01" -> MatrixC01(ev)
+    [] ev.k = "roundtrip" /\ Prop = "C18" -> RtC18(ev)
     [] ev.k = "verswf" /\ Prop = "C17" -> VersWfC17(ev)
     [] ev.k = "versvar" /\ Prop = "C16" -> VersVarC16(ev)
     [] ev.k = "vers" /\ Prop = "C04" -> VersC04(ev)
